@@ -43,7 +43,11 @@ def gen_inputs(tier, rnd):
         table = [[rnd.choice("aabbcz") for _ in range(nkeys)] for _ in range(nrows)]
         if rnd.random() < 0.1 and table:
             table[rnd.randrange(len(table))] = table[0][:-1] if nkeys > 1 else ["a", "a"]
-        yield {"spec": spec, "table": table, "mode": rnd.choice(["yield", "yield", "continue", "raise"])}
+        case = {"spec": spec, "table": table, "mode": rnd.choice(["yield", "yield", "continue", "raise"])}
+        if rnd.random() < 0.3:
+            # a second data set sharing keys is read with the same CID after this reader was constructed
+            case["decoy"] = [[rnd.choice("abc") for _ in range(nkeys)] for _ in range(rnd.randint(1, 4))]
+        yield case
 
 
 def direct_oracle(inp, obs):
